@@ -93,6 +93,7 @@ def _task(X):
     P, R, table, var, loop, stubs = _CTX[:6]
     H = ReaderHarness(P, R, havoc=True, stub_content=False, unknown_iters=_CTX[6] if len(_CTX) > 6 else (1,))
     H.extra_stubs = stubs
+    H.record_compares = True
     # the section is analysed after a real, legal history (the shortest one), frozen once a feasible way through it
     # has been found: every loop-carried variable then holds a value the code itself produced
     hist = history_to(table, X)
@@ -171,6 +172,14 @@ def _task(X):
                 out['dict_other'].add('truth test at %s' % e.loc)
             if after_header(e) and e.kind == 'loop' and e.data.get('of') is opts:
                 out['dict_other'].add('iteration at %s' % e.loc)
+            if after_header(e) and e.kind in ('open-splat', 'open-splat-named') and ({'OPTKEY', 'INPUT'} & set(getattr(e.data['mapping'], 'taint', ()))):
+                out['dict_other'].add('the option mapping is splatted into %s(), whose parameters %s an option name can bind'
+                                      % (e.data['callee'].short, sorted(e.data['params'])[:4]))
+            if after_header(e) and e.kind == 'compare':
+                for side in (e.data['l'], e.data['r']):
+                    if isinstance(side, Unk) and 'OPTVAL' in side.taint and option_origin(side) is None and 'OPTKEY' not in side.taint - {'OPTKEY'} \
+                            and not (side.src and side.src[0] == 'cond'):
+                        out['dict_other'].add('the value of an option the reader does not know is tested at %s' % e.loc)
             if after_header(e) and e.kind == 'mayraise' and e.data['why'].startswith('key ') and e.data['operands'] and e.data['operands'][0] is opts:
                 out['dict_reads'].add(e.data['why'].split("'")[1] if "'" in e.data['why'] else '?')
         if X == 'diffx':
